@@ -391,3 +391,81 @@ Proof.
   - eapply hb_child; [left; reflexivity|]. eapply hb_child; [right; left; reflexivity | constructor].
   - cbn. apply Permutation_sym. apply Permutation_rev with (l := [(1, 2); (2, 2); (3, 1)]).
 Qed.
+
+(* ================= added by the session-3 audit ================= *)
+
+(* ===== how the "…By" clause is read: DISTINCT VALUES, not distinct images ===== *)
+
+Theorem C11_by_results_are_unique_of_literal_reading :
+  forall A (ed : dec_eq A) (fn : A -> A) (p0 s2 : list A) others,
+  intersection_by ed fn (p0 :: others) =
+    Ok (unique ed (filter (fun x => image_in_every ed fn others x) p0)) /\
+  difference_by ed fn p0 s2 =
+    unique ed (filter (fun x => negb (inb ed (fn x) (map fn s2))) p0) /\
+  intersection ed (p0 :: others) = Ok (unique ed (filter (in_every ed others) p0)) /\
+  difference ed p0 s2 = unique ed (filter (fun x => negb (inb ed x s2)) p0) /\
+  (NoDup p0 ->
+     intersection_by ed fn (p0 :: others) = Ok (filter (image_in_every ed fn others) p0) /\
+     difference_by ed fn p0 s2 = filter (fun x => negb (inb ed (fn x) (map fn s2))) p0).
+Proof.
+  intros A ed fn p0 s2 others.
+  split; [apply intersection_by_literal|]. split; [apply difference_by_literal|].
+  split; [apply intersection_literal|]. split; [apply difference_literal|].
+  intros ND. rewrite intersection_by_spec, difference_by_spec, (unique_NoDup_id ed p0 ND). now split.
+Qed.
+Print Assumptions C11_by_results_are_unique_of_literal_reading.
+
+Example C11_by_values_not_images :
+  let fn := fun x => Z.rem x 2 in
+  (* two different values with one image are BOTH kept; a repeated value is kept once *)
+  intersection_by Z.eq_dec fn [[1; 3; 1; 5; 3]; [7]] = Ok [1; 3; 5] /\
+  difference_by Z.eq_dec fn [1; 3; 1; 2; 5; 3] [4] = [1; 3; 5] /\
+  (* … whereas UniqueBy keeps one element per image *)
+  unique_by Z.eq_dec fn [1; 3; 1; 2; 5; 3] = [1; 2].
+Proof. repeat split; reflexivity. Qed.
+
+(* ===== the order is the first argument's; the other arguments only matter as sets ===== *)
+
+Theorem C11_intersection_order_is_first_arguments :
+  forall A (ed : dec_eq A) (p0 : list A) others others',
+  (exists r, intersection ed (p0 :: others) = Ok r /\ subseq r p0) /\
+  ((forall x, In x p0 ->
+      ((forall p, In p others -> In x p) <-> (forall p, In p others' -> In x p))) ->
+   intersection ed (p0 :: others) = intersection ed (p0 :: others')).
+Proof.
+  intros A ed p0 others others'. split.
+  - eexists. split; [apply intersection_spec|].
+    eapply subseq_trans; [apply subseq_filter | apply unique_subseq].
+  - apply intersection_others_members.
+Qed.
+Print Assumptions C11_intersection_order_is_first_arguments.
+
+Example C11_intersection_shorter_later_argument :
+  intersection Z.eq_dec [[1; 2; 3; 2]; [3; 1]] = Ok [1; 3] /\
+  intersection Z.eq_dec [[1; 2; 3; 2]; [1; 3]] = Ok [1; 3] /\
+  intersection Z.eq_dec [[3; 2; 1]; [1; 3]; [3; 3; 1; 1; 9]] = Ok [3; 1] /\
+  intersection_by Z.eq_dec (fun x => Z.quot x 2) [[5; 2; 7]; [6; 4]] = Ok [5; 7].
+Proof. repeat split; reflexivity. Qed.
+
+(* ===== Union: Ok exactly on well-formed nestings; an empty result only when there is no leaf ===== *)
+
+Theorem C11_union_ok_iff : forall A (ed : dec_eq A) (n : nest A) r,
+  (union ed n = Ok r <-> ~ has_bad n /\ r = unique ed (leaves n)) /\
+  (union ed n = Ok [] <-> ~ has_bad n /\ leaves n = []).
+Proof. intros. split; [apply union_ok_iff | apply union_empty_iff]. Qed.
+Print Assumptions C11_union_ok_iff.
+
+Example C11_union_error_at_depth :
+  (* the wrong-typed node is the LAST leaf of a depth-3 nesting: everything gathered so far is discarded *)
+  union Z.eq_dec (NAny [NLeaf 1; NAny [NSlice [2]; NAny [NLeaf 3; NBad]]]) = Err 1 /\
+  has_bad (NAny [NLeaf 1; NAny [NSlice [2]; NAny [NLeaf 3; NBad]]]) /\
+  union_unrepaired Z.eq_dec (NAny [NLeaf 1; NAny [NSlice [2]; NAny [NLeaf 3; NBad]]]) = Ok [] /\
+  union Z.eq_dec (NAny [NAny []; NSlice []]) = Ok [] /\ ~ has_bad (NAny [NAny []; NSlice [] : nest Z]).
+Proof.
+  repeat split; try reflexivity.
+  - eapply hb_child; [right; left; reflexivity|].
+    eapply hb_child; [right; left; reflexivity|].
+    eapply hb_child; [right; left; reflexivity | constructor].
+  - intros H. inversion H as [|cs c Hin Hb]; subst.
+    destruct Hin as [<-|[<-|[]]]; inversion Hb as [|cs' c' Hin' Hb']; subst. destruct Hin'.
+Qed.
